@@ -140,7 +140,15 @@ def sig_c17_race(oracle, inp, ver):
     """a data race one side of which is a firing sio timer goroutine (TimerEntry.run) and the other
     the crew's own processing"""
     r = inp.get("race", "")
-    return oracle == "probe:dataRace" and "sio.(*TimerEntry).run" in r and "sio.(*Crew)." in r
+    if oracle == "probe:dataRace" and "sio.(*TimerEntry).run" in r and "sio.(*Crew)." in r:
+        return True
+    # the same race seen without the detector: the crew's own marshalling of machine state
+    # (GetChanged, inside ProcessMsg) panics in encoding/json because a timer goroutine deletes from
+    # the live timers map underneath it
+    g = inp.get("go") or {}
+    st = g.get("stack", "") if isinstance(g, dict) else ""
+    return (oracle in ("logAccepted", "corr") and inp.get("impl") == "sio" and bool(g.get("panic")) and
+            "sio.(*Crew).GetChanged" in st and "encoding/json" in st)
 
 
 def race_probe(op, extra_env=None):
@@ -164,6 +172,12 @@ def race_probe(op, extra_env=None):
             short = "\n".join(l for l in b.strip().split("\n") if "sheens" in l or "DATA RACE" in l or "by goroutine" in l)[:3000]
             res.failing.append(("probe:dataRace", {"race": short, "frames": sorted(set(frames)), "op": op + " -race", "args": rargs}, {"corr": True}))
         if p.returncode not in (0, 66):
+            from checklib_main import fatal_race_of
+            fr = fatal_race_of(p.stderr)
+            if fr is not None:
+                # the runtime's own "concurrent map" check ended the run: the same kind of observation
+                res.failing.append(("probe:dataRace", dict(fr, args=rargs), {"corr": True}))
+                return True
             res.oblige("harness:race-run", False, p.stderr[-800:])
             return False
         return True
@@ -189,6 +203,12 @@ def c17_race_probe(res, workdir, rseed, rargs, opts):
         short = "\n".join(l for l in b.strip().split("\n") if "sheens" in l or "DATA RACE" in l or "by goroutine" in l)[:3000]
         res.failing.append(("probe:dataRace", {"race": short, "frames": sorted(set(frames)), "op": "siotimers -race", "args": rargs}, {"corr": True}))
     if p.returncode not in (0, 66):
+        from checklib_main import fatal_race_of
+        fr = fatal_race_of(p.stderr)
+        if fr is not None:
+            # the runtime's own "concurrent map" check ended the run: the same kind of observation
+            res.failing.append(("probe:dataRace", dict(fr, args=rargs), {"corr": True}))
+            return True
         res.oblige("harness:race-run", False, p.stderr[-800:])
         return False
     return True
@@ -365,7 +385,7 @@ PROPS = {
         },
         "analyze": analyze_generic,
         "oracles": ["permanent", "total"],
-        "probes": [],
+        "probes": ["permanentInPlace"],
         "rule": ENGINE_RULE,
     },
     "C14": {
@@ -380,7 +400,7 @@ PROPS = {
         },
         "analyze": analyze_generic,
         "oracles": ["deliveredOnce"],
-        "probes": ["bfsOrdered", "batchOrder", "servicesQuiet", "emissionsFedBackOnce"],
+        "probes": ["bfsOrdered", "batchOrder", "servicesQuiet", "emissionsFedBackOnce", "fedBackCount"],
         "rule": CREW_RULE,
     },
     "C15": {
